@@ -27,6 +27,7 @@ type FnCase struct {
 	Retries int    `json:"retries,omitempty"`    // > 0: WithMaxRetries(Retries) is configured (exec never returns a Go error here, so it must run once)
 	FB      bool   `json:"fb,omitempty"`         // a fallback function is installed (must not be invoked)
 	FBResult bool `json:"fb_result,omitempty"` // exec fails with a Go error on every attempt; the fallback hands back flyt.NewResult(e): post receives e, not a Result inside a Result
+	FBErrResult bool `json:"fb_err_result,omitempty"` // with FBResult: the fallback hands back (flyt.NewErrorResult(err), nil) — its outcome replaces the exec outcome, error state included, exactly as if exec had returned that error Result
 	CancelInExec bool `json:"cancel_in_exec,omitempty"` // the run's context is cancelled inside the exec function, which still returns normally: post receives exactly what exec returned
 	Conc    int    `json:"conc,omitempty"`       // a batch concurrency (and error mode) configured on the plain function node: must change nothing
 }
@@ -102,7 +103,7 @@ func runFnCase(cs *FnCase) (fs []finding) {
 		if pErr || !zoo.Same(pv, p) {
 			add("post-prep-arg:"+cs.Context, "post function received prep value %s, prep returned %s [%s, %s]", zoo.Describe(pv), zoo.Describe(p), style, cs.Build)
 		}
-		if cs.ErrRes && cs.ExecR {
+		if (cs.ErrRes && cs.ExecR) || cs.FBErrResult {
 			if resultStyle {
 				if isResult(ev) {
 					add("post-exec-double-wrapped:"+cs.Context, "exec returned an error Result; the post function received a non-error Result whose value is itself a flyt.Result (wrapped a second time, error state hidden) [%s, %s]", style, cs.Build)
@@ -147,6 +148,9 @@ func runFnCase(cs *FnCase) (fs []finding) {
 		o.mu.Lock()
 		o.fbCalls++
 		o.mu.Unlock()
+		if cs.FBErrResult {
+			return flyt.NewErrorResult(errFn), nil
+		}
 		if cs.FBResult {
 			return flyt.NewResult(e), nil // Result style, like an exec function would
 		}
@@ -389,6 +393,9 @@ func runC17(c *Cfg) {
 						cases = append(cases, &FnCase{Family: "grid", PrepR: st&1 != 0, ExecR: st&2 != 0, PostR: st&4 != 0, Build: build, Context: ctx, P: p, E: (p*7 + 3) % nz, ErrRes: errRes})
 						if p%9 == 4 && !errRes && ctx != "batch" { // the fallback supplies a Result-style outcome
 							cases = append(cases, &FnCase{Family: "grid-fallback-result", PrepR: st&1 != 0, ExecR: st&2 != 0, PostR: st&4 != 0, Build: build, Context: ctx, P: p, E: (p*7 + 3) % nz, FB: true, FBResult: true, Retries: 2 * (p % 2)})
+						}
+						if p%11 == 5 && !errRes && ctx != "batch" { // ... or an error Result: the run still succeeds and post sees that error state
+							cases = append(cases, &FnCase{Family: "grid-fallback-error-result", PrepR: st&1 != 0, ExecR: st&2 != 0, PostR: st&4 != 0, Build: build, Context: ctx, P: p, E: (p*7 + 3) % nz, FB: true, FBResult: true, FBErrResult: true, Retries: 3 * (p % 2)})
 						}
 						if p%7 == 2 && ctx != "batch" { // the context is cancelled inside exec, exec returns normally
 							cases = append(cases, &FnCase{Family: "grid-cancel-in-exec", PrepR: st&1 != 0, ExecR: st&2 != 0, PostR: st&4 != 0, Build: build, Context: ctx, P: p, E: (p*7 + 3) % nz, ErrRes: errRes, CancelInExec: true})
